@@ -660,6 +660,9 @@ func (m *Muxer) handleMultivariantPlaylist(w http.ResponseWriter, r *http.Reques
 }
 
 func (m *Muxer) generateMultivariantPlaylist(rawQuery string) ([]byte, error) {
+	// the query is copied into quoted attributes: re-encode it as the media playlists do
+	rawQuery = filterOutHLSParams(rawQuery)
+
 	// TODO: consider segments in all streams
 	maxBandwidth, averageBandwidth := bandwidth(m.streams[0].segments)
 
